@@ -456,15 +456,42 @@ func (c *FnCtx) specCtxWith(st *State, extra map[string]Term) *SpecCtx {
 func (c *FnCtx) checkInvariant(st *State, invs []Clause, ord int, phase string, pos token.Pos, extra map[string]Term) {
 	sc := c.specCtxWith(st, extra)
 	for i, inv := range invs {
+		if c.invUnknownName(sc, inv) {
+			continue
+		}
 		for _, cj := range sc.evalConjuncts(inv.E, "") {
 			c.oblige(st, "loop-inv-"+phase, fmt.Sprintf("loop%d/inv%d%s", ord, i+1, cj.Path), pos, cj.Term.S, fmt.Sprintf("loop %d invariant %s: %s", ord, phase, cj.Src))
 		}
 	}
 }
 
+// invUnknownName: the invariant clause mentions a name that does not exist (any more) in the function - typically a
+// local that a code change removed or renamed. An invariant only HELPS the proof, so such a clause is dropped (the
+// loop is then cut with less knowledge: what depended on it fails as an ordinary obligation of the function, instead
+// of the whole function becoming undecidable) and the fact is listed.
+func (c *FnCtx) invUnknownName(sc *SpecCtx, inv Clause) (unknown bool) {
+	defer func() {
+		if r := recover(); r != nil {
+			if te, ok := r.(toolError); ok && strings.Contains(string(te), "unknown identifier") {
+				c.e.trusted["loop invariant clause dropped in "+shortFn(c.fi.Key)+": "+string(te)+" ("+strings.TrimSpace(inv.Src)+")"] = true
+				unknown = true
+				return
+			}
+			panic(r)
+		}
+	}()
+	probe := *sc
+	probe.st = sc.st.clone()
+	probe.eval(inv.E)
+	return false
+}
+
 func (c *FnCtx) assumeInvariant(st *State, invs []Clause, extra map[string]Term) {
 	sc := c.specCtxWith(st, extra)
 	for _, inv := range invs {
+		if c.invUnknownName(sc, inv) {
+			continue
+		}
 		st.assume(sc.eval(inv.E).S)
 	}
 }
@@ -525,11 +552,13 @@ func (c *FnCtx) execFor(st *State, x *ast.ForStmt) []Outcome {
 		exitSt = bodySt.clone()
 		exitSt.assume(sNot(cond.S))
 		bodySt.assume(cond.S)
+		c.checkLoopExit(exitSt, ord, x.Pos())
 		outs = append(outs, Outcome{st: exitSt, kind: oNext})
 	}
 	for _, o := range c.execBlock(bodySt, x.Body.List) {
 		switch {
 		case o.kind == oBreak && (o.label == "" || o.label == label):
+			c.checkLoopExit(o.st, ord, x.Pos())
 			outs = append(outs, Outcome{st: o.st, kind: oNext})
 		case (o.kind == oNext) || (o.kind == oContinue && (o.label == "" || o.label == label)):
 			s2 := o.st
